@@ -1079,8 +1079,9 @@ package lang
 //@ func group [C01,C06]
 //@   implements parseRule.prefix
 
-//@ func unary [C01,C06]
+//@ func unary [C01,C06,C11]
 //@   implements parseRule.prefix
+//@   ensures[C11] incr-target-is-assignable: result1 == nil && (old(arg0.current.Tag) == PlusPlus || old(arg0.current.Tag) == MinusMinus) ==> assignable(as(result0, *ExprUnary).Expr)
 //@   assert[C06] operand-at-unary-level: arg1 == PrecUnary @ Parser.expressionWithPrec
 //@   ensures[C06] node-shape: result1 == nil ==> istype(result0, *ExprUnary) && !as(result0, *ExprUnary).Postfix && as(result0, *ExprUnary).OpToken.Tag == old(arg0.current.Tag)
 
@@ -1093,13 +1094,25 @@ package lang
 //@ func call [C01,C06]
 //@   implements parseRule.infix
 
-//@ func postfix [C01,C06]
+// What can be assigned to (C11: anything else on the left of =, op=, ++ or -- is a syntax error): a name,
+// a member or an index expression.
+//@ spec func assignable(x Expr) bool = istype(x, *ExprIdentifier) || (istype(x, *ExprBinary) && (as(x, *ExprBinary).OpToken.Tag == Dot || as(x, *ExprBinary).OpToken.Tag == LSquare))
+
+//@ func Parser.checkAssignable [C01,C11]
+//@   requires parserOK(p) && target != nil
+//@   ensures[C11] error-iff-not-assignable: (err != nil) <==> !assignable(target)
+//@   ensures[C01] errkind: err != nil ==> isSyn(err)
+//@   modifies nothing
+
+//@ func postfix [C01,C06,C11]
 //@   implements parseRule.infix
+//@   ensures[C11] target-is-assignable: result1 == nil ==> old(assignable(arg1))
 //@   ensures[C06] node-shape: result1 == nil ==> istype(result0, *ExprUnary) && as(result0, *ExprUnary).Postfix && as(result0, *ExprUnary).Expr == arg1 && as(result0, *ExprUnary).OpToken.Tag == old(arg0.current.Tag)
 
-//@ func binary [C01,C06]
+//@ func binary [C01,C06,C11]
 //@   implements parseRule.infix
 //@   reveal tableOK
+//@   ensures[C11] compound-target-is-assignable: result1 == nil && isCompoundTag(old(arg0.current.Tag)) ==> old(assignable(arg1))
 // I3 of lemma L6: a left-associative operator parses its right operand one level tighter than itself,
 // the (right-associative) compound assignments at their own level.
 //@   assert[C06] right-operand-level: arg1 == (isCompoundTag(p.previous.Tag) ? specPrec(p.previous.Tag) : specPrec(p.previous.Tag) + 1) @ Parser.expressionWithPrec
@@ -1108,12 +1121,12 @@ package lang
 //@ func is [C01,C06]
 //@   implements parseRule.infix
 
-//@ func assign [C01,C06]
+//@ func assign [C01,C06,C11]
 //@   implements parseRule.infix
 //@   reveal tableOK
 //@   assert[C06] assignment-is-right-associative: arg1 == PrecAssign @ Parser.expressionWithPrec
 //@   ensures[C06] node-shape: result1 == nil && old(arg0.current.Tag) == Equal ==> istype(result0, *ExprBinary) && as(result0, *ExprBinary).Left == arg1 && as(result0, *ExprBinary).OpToken.Tag == Equal
-//@   ensures[C11] target-is-assignable: result1 == nil ==> !istype(arg1, *ExprLiteral) && !istype(arg1, *ExprArray) && !istype(arg1, *ExprObject) && (istype(arg1, *ExprBinary) ==> as(arg1, *ExprBinary).OpToken.Tag == Dot || as(arg1, *ExprBinary).OpToken.Tag == LSquare)
+//@   ensures[C11] target-is-assignable: result1 == nil ==> old(assignable(arg1))
 
 // ---------------------------------------------------------------- native methods and builtins (C15, C16)
 
